@@ -10,6 +10,7 @@ use soroban_sdk::{Address, Env, Flat, Vec};
 
 pub mod claim_issuer;
 pub mod cti;
+pub mod binder;
 
 /// stored entry equal up to its TTL (reads extend the TTL of what they touch); an absent entry has no value
 pub fn same_entry(a: &Slot, b: &Slot) -> bool {
@@ -56,6 +57,30 @@ impl List {
             i += 1;
         }
         l
+    }
+    /// the same elements with the length `k`
+    pub fn with_len(&self, k: u32) -> List {
+        List { n: k, x: self.x }
+    }
+    /// Runs `f` on this list as a `Vec<u32>`. Dispatches on the symbolic length, so that along every path the library
+    /// receives a vector of CONCRETE length (its loops over the argument keep concrete bounds); same set of executions.
+    pub fn call_as_u32_vec(&self, f: impl Fn(&Vec<u32>)) {
+        let mut k = 0;
+        while k <= CAP {
+            if self.n == k as u32 {
+                f(&self.with_len(k as u32).to_u32_vec());
+            }
+            k += 1;
+        }
+    }
+    pub fn call_as_addr_vec(&self, f: impl Fn(&Vec<Address>)) {
+        let mut k = 0;
+        while k <= CAP {
+            if self.n == k as u32 {
+                f(&self.with_len(k as u32).to_addr_vec());
+            }
+            k += 1;
+        }
     }
     fn words(&self, tag: u64) -> [u64; LW] {
         let mut w = [0u64; LW];
